@@ -222,6 +222,17 @@ def observedOf (ops : List (Nat × Op)) (items : List Sexp) (sid : Nat) : List (
       | _ => some []
     else none)
 
+/-- The session's observations agree with what it observes alone, up to the first
+    answer the model does not predict (a prepare whose text is outside the modelled
+    alphabet: its parameter count, and with it the later answers of that session,
+    are not the model's to say). -/
+def obsAgree : List (List String) → List (List String) → Bool
+  | [], [] => true
+  | o :: os, a :: as =>
+    if a.contains "(resp unmodelled)" then true
+    else o == a && obsAgree os as
+  | _, _ => false
+
 def oracle (req out : Sexp) : String :=
   match req, out with
   | .list [.atom "own", pl, opsE], .list items =>
@@ -234,7 +245,7 @@ def oracle (req out : Sexp) : String :=
       else if items.any (fun it => match it with
           | .list xs => xs.contains (.atom "hang")
           | _ => false) then "viol session-hang"
-      else if (sessionIds ops).any (fun sid => observedOf ops items sid != aloneObs plugin ops sid) then
+      else if (sessionIds ops).any (fun sid => !obsAgree (observedOf ops items sid) (aloneObs plugin ops sid)) then
         "viol session-affected-by-other-session"
       else "ok"
     | _, _ => "viol unparsable"
